@@ -20,6 +20,9 @@
 (*                                registers found after the real           *)
 (*                                emu.ComputeUnit / timing cu dispatched   *)
 (*                                the work-group                           *)
+(*  E2EBegin/WfRun/E2EEnd         a kernel run on a whole platform (driver, *)
+(*                                CP, dispatcher, CUs): registers of each  *)
+(*                                wavefront when its first instruction runs*)
 (*  Panic   msg                   the real code panicked: never accepted   *)
 (*                                                                         *)
 (* The order in which a builder enumerates work-groups and the way it      *)
@@ -44,8 +47,9 @@ VARIABLES l,         \* position in TraceLog
           tnum,      \* count announced by the current builder (-1: no builder yet)
           consumed,  \* work-groups the current builder has skipped or produced
           seen,      \* work-group ids produced by the builders of the current Kernel
-          split      \* accept sets of the last Split (sequence of sets), <<>> if none
-tvars == <<l, tgeo, tfilt, tnum, consumed, seen, split>>
+          split,     \* accept sets of the last Split (sequence of sets), <<>> if none
+          e2e        \* whole-platform run: [on, ver, en, flags, ids (global ids executed so far), dev]
+tvars == <<l, tgeo, tfilt, tnum, consumed, seen, split, e2e>>
 
 ASSUME HWInit
 
@@ -62,12 +66,14 @@ MaskSet(limbs) == {b \in 0..63 : Bit(limbs, b)}
 
 Dev(name) == PrintT(<<"DEVIATION", l, name>>)
 
+NoE2E == [on |-> FALSE, ver |-> 0, en |-> 0, flags |-> <<>>, ids |-> {}, dev |-> FALSE]
+
 TInit == /\ l = 1 /\ tgeo = NoGeo /\ tfilt = [k |-> "none"] /\ tnum = -1 /\ consumed = 0
-         /\ seen = {} /\ split = <<>>
+         /\ seen = {} /\ split = <<>> /\ e2e = NoE2E
 
 TReset == /\ Is("Reset")
           /\ tgeo' = NoGeo /\ tfilt' = [k |-> "none"] /\ tnum' = -1 /\ consumed' = 0
-          /\ seen' = {} /\ split' = <<>>
+          /\ seen' = {} /\ split' = <<>> /\ e2e' = NoE2E
 
 \* --------------------------------------------------------------- the split
 TSplit ==
@@ -76,7 +82,7 @@ TSplit ==
      IN /\ Len(accs) = Len(Ev.cus)
         /\ SplitExact(Ev.total, accs)          \* every work-group goes to exactly one GPU
         /\ split' = accs
-  /\ UNCHANGED <<tgeo, tfilt, tnum, consumed, seen>>
+  /\ UNCHANGED <<tgeo, tfilt, tnum, consumed, seen, e2e>>
 
 TKernel ==
   /\ Is("Kernel")
@@ -88,19 +94,19 @@ TKernel ==
            THEN /\ Ev.f.gpu \in 1..Len(split) /\ f.acc = split[Ev.f.gpu]
                 /\ UNION SeqSet(split) = 0..TotalWG(g) - 1
            ELSE TRUE
-  /\ tnum' = -1 /\ consumed' = 0 /\ seen' = {} /\ UNCHANGED split
+  /\ tnum' = -1 /\ consumed' = 0 /\ seen' = {} /\ UNCHANGED <<split, e2e>>
 
 \* ------------------------------------------------------------- the builder
 TBuilder ==
   /\ Is("Builder")
   /\ Ev.numWG = CountWG(tgeo, tfilt)            \* announced = number of accepted work-groups
   /\ tnum' = Ev.numWG /\ consumed' = 0
-  /\ UNCHANGED <<tgeo, tfilt, seen, split>>
+  /\ UNCHANGED <<tgeo, tfilt, seen, split, e2e>>
 
 TSkip ==
   /\ Is("Skip") /\ tnum >= 0
   /\ consumed' = consumed + Ev.n
-  /\ UNCHANGED <<tgeo, tfilt, tnum, seen, split>>
+  /\ UNCHANGED <<tgeo, tfilt, tnum, seen, split, e2e>>
 
 WfsOf(ws) == [i \in 1..Len(ws) |-> [first |-> ws[i].first, mask |-> MaskSet(ws[i].mask), items |-> ws[i].items]]
 Desc(wfs) == [i \in 1..Len(wfs) |-> [first |-> wfs[i].first, mask |-> wfs[i].mask]]
@@ -120,17 +126,17 @@ TWG ==
               /\ Dev("WfStartNeedsPresentMultiple")
         /\ seen' = seen \cup {id}
   /\ consumed' = consumed + 1
-  /\ UNCHANGED <<tgeo, tfilt, tnum, split>>
+  /\ UNCHANGED <<tgeo, tfilt, tnum, split, e2e>>
 
 TNil ==
   /\ Is("Nil") /\ tnum >= 0
   /\ consumed >= tnum                           \* never fewer than announced
-  /\ UNCHANGED <<tgeo, tfilt, tnum, consumed, seen, split>>
+  /\ UNCHANGED <<tgeo, tfilt, tnum, consumed, seen, split, e2e>>
 
 TGroupEnd ==
   /\ Is("GroupEnd")
   /\ seen = PassingWG(tgeo, tfilt)              \* every accepted work-group was produced
-  /\ UNCHANGED <<tgeo, tfilt, tnum, consumed, seen, split>>
+  /\ UNCHANGED <<tgeo, tfilt, tnum, consumed, seen, split, e2e>>
 
 \* ------------------------------------------------------------- registers
 \* SGPR layout up to the work-group ids (flags: psb dptr kptr cx cy cz ix iy iz as 0/1)
@@ -171,11 +177,68 @@ TRegs ==
               /\ Dev("TimingIgnoresPackedIds")
            \/ /\ Ev.mode = "timing" /\ pe /\ ~Exact(TRUE) /\ ~Exact(FALSE) /\ ~Explained(TRUE) /\ Explained(FALSE)
               /\ Dev("WfStartNeedsPresentMultiple") /\ Dev("TimingIgnoresPackedIds")
+  /\ UNCHANGED <<tgeo, tfilt, tnum, consumed, seen, split, e2e>>
+
+
+\* ----------------------------------------------------------- whole platform
+\* A kernel launched through the real driver, command processor(s) and dispatcher(s); one WfRun per
+\* wavefront at the moment its first instruction executes.  The global ids held by the enabled
+\* lanes (work-group id registers * work-group size + lane id registers) must be ids of the grid,
+\* never seen before, and at the end all of the grid.
+TE2EBegin ==
+  /\ Is("E2EBegin") /\ ~e2e.on
+  /\ tgeo' = [g |-> T3(Ev.g), s |-> T3(Ev.s)]
+  /\ e2e' = [on |-> TRUE, ver |-> Ev.ver, en |-> Ev.en, flags |-> Ev.flags, ids |-> {}, dev |-> FALSE]
+  /\ tfilt' = [k |-> "none"] /\ tnum' = -1 /\ consumed' = 0 /\ seen' = {} /\ UNCHANGED split
+
+InGridItem(geo, p) == \A d \in 1..3 : p[d] \in 0..geo.g[d] - 1
+
+TWfRun ==
+  /\ Is("WfRun") /\ e2e.on
+  /\ LET fl == e2e.flags
+         en == e2e.en
+         pe == e2e.ver = 5
+         b == SgprBase(fl)
+         R == <<Ev.sregs[b + 1], Ev.sregs[b + fl.ix + 1], Ev.sregs[b + fl.ix + fl.iy + 1]>>   \* work-group id registers
+         lanes == MaskSet(Ev.exec)
+         Loc(ln, pk) == IdsFrom(<<Ev.v0[ln + 1], Ev.v1[ln + 1], Ev.v2[ln + 1]>>, pk, en)
+         Glob(ln, pk) == Global(tgeo, R, Loc(ln, pk))
+         GSet(pk) == {Glob(ln, pk) : ln \in lanes}
+         Good(pk) == /\ \A p \in GSet(pk) : InGridItem(tgeo, p) /\ p \notin e2e.ids
+                     /\ Cardinality(GSet(pk)) = Cardinality(lanes)
+         id == T3(Ev.id)
+         cs == T3(Ev.cs)
+         \* the wavefront is one that the as-implemented formWavefronts makes for this (partial) group, and
+         \* the registers are what the init rule gives for it
+         Explained(pk) ==
+            /\ InGrid(tgeo, id) /\ cs = CurrSize(tgeo, id) /\ R = id
+            /\ LET f == FormAsImpl(tgeo, cs)
+               IN /\ ~LanesExact(tgeo, cs, f)
+                  /\ \E i \in 1..Len(f) : f[i].first = Ev.first /\ f[i].mask = MaskSet(Ev.mask)
+            /\ lanes = MaskSet(Ev.mask)
+            /\ \A ln \in lanes : Loc(ln, pk) = Unflatten(tgeo, Ev.first + ln)
+         Add(pk) == e2e.ids \cup {p \in GSet(pk) : InGridItem(tgeo, p)}
+     IN /\ fl.ix = 1 /\ fl.iy = 1 /\ fl.iz = 1
+        /\ \/ Good(pe) /\ e2e' = [e2e EXCEPT !.ids = Add(pe)]
+           \/ /\ ~Good(pe) /\ Explained(pe) /\ Dev("WfStartNeedsPresentMultiple")
+              /\ e2e' = [e2e EXCEPT !.ids = Add(pe), !.dev = TRUE]
+           \/ /\ Ev.plat = "timing" /\ pe /\ ~Good(TRUE) /\ Good(FALSE) /\ Dev("TimingIgnoresPackedIds")
+              /\ e2e' = [e2e EXCEPT !.ids = Add(FALSE)]
+           \/ /\ Ev.plat = "timing" /\ pe /\ ~Good(TRUE) /\ ~Good(FALSE) /\ ~Explained(TRUE) /\ Explained(FALSE)
+              /\ Dev("WfStartNeedsPresentMultiple") /\ Dev("TimingIgnoresPackedIds")
+              /\ e2e' = [e2e EXCEPT !.ids = Add(FALSE), !.dev = TRUE]
+  /\ UNCHANGED <<tgeo, tfilt, tnum, consumed, seen, split>>
+
+TE2EEnd ==
+  /\ Is("E2EEnd") /\ e2e.on
+  /\ e2e.dev \/ e2e.ids = GridItems(tgeo)      \* every work-item of the grid was executed
+  /\ e2e' = NoE2E
   /\ UNCHANGED <<tgeo, tfilt, tnum, consumed, seen, split>>
 
 \* a Panic line has no action: the trace is rejected there
 
 TNext == TReset \/ TSplit \/ TKernel \/ TBuilder \/ TSkip \/ TWG \/ TNil \/ TGroupEnd \/ TRegs
+         \/ TE2EBegin \/ TWfRun \/ TE2EEnd
 TSpec == TInit /\ [][TNext]_tvars
 
 Mark == HWNote(l)                 \* CONSTRAINT: records progress
